@@ -25,6 +25,8 @@ registry! {
     h_panic::h_panic_n3_hist,
     h_panic::h_panic_n2_two,
     h_panic::h_panic_twin,
+    h_panic::h_panic_n4_trace,
+    h_panic::h_panic_n4_q,
     h_fin::h_fin_n2,
     h_fin::h_fin_n3,
     h_fin::h_fin_n3_stash,
@@ -33,11 +35,13 @@ registry! {
     #[cfg(feature = "weak-ptrs")]
     h_fin::h_fin_weak_n3,
     h_fin::h_fin_twin,
+    h_fin::h_chain12,
     h_api::h_unwrap,
     #[cfg(feature = "weak-ptrs")]
     h_api::h_unwrap_weak,
     h_api::h_unwrap_twin,
     h_api::h_nest_n2,
+    h_api::h_nest_n2_full,
     h_api::h_nest_twin,
     h_count::h_sat_strong,
     #[cfg(feature = "weak-ptrs")]
@@ -60,6 +64,7 @@ registry! {
     h_clean::h_clean_panic,
     h_layout::h_layout_grid,
     h_layout::h_layout_zst,
+    h_layout::h_layout_small,
     h_layout::h_forward_ints,
     h_layout::h_forward_f64,
     h_layout::h_layout_twin,
@@ -96,6 +101,8 @@ registry! {
     h_trace::h_trace_tuple_vec_option,
     h_trace::h_trace_twin,
     h_trace::h_trace_vec,
+    h_trace::h_trace_vec_long,
+    h_trace::h_trace_manuallydrop_cycle,
     h_trace::h_trace_vec_manuallydrop,
     h_trace::h_trace_vec_option,
     #[cfg(feature = "auto-collect")]
@@ -112,6 +119,8 @@ registry! {
     h_policy::h_policy_twin,
     #[cfg(feature = "weak-ptrs")]
     h_cyclic::h_cyclic,
+    #[cfg(feature = "weak-ptrs")]
+    h_cyclic::h_cyclic_in_drop,
     #[cfg(feature = "weak-ptrs")]
     h_cyclic::h_cyclic_twin,
     #[cfg(feature = "weak-ptrs")]
